@@ -31,7 +31,7 @@ def build(rec):
 
     def ep():
         if rec['ctxk'] == 'map':
-            return dict((n, ['preset', n]) for n in rec['pre'])
+            return dict((n, None if n in rec.get('preNone', []) else ['preset', n]) for n in rec['pre'])
         if rec['ctxk'] == 'str':
             return 'a context that is not a mapping'
         return Response('direct response')
